@@ -256,6 +256,8 @@ class Ownership:
                         root = root.value
                     if isinstance(root, ast.Name) and root.id in MODULE_ROOTS:
                         continue  # a library function, not a method of an array
+                    if (isinstance(r, ast.Attribute) and r.attr == "xp") or (isinstance(r, ast.Name) and r.id == "xp"):
+                        continue  # xp.sort(a) / self.xp.sort(a): the array namespace's function (returns a new array)
                     self._sink((n, f"{ast.unparse(r)[:40]}.{name}(...)", self.status(r), ast.unparse(r)[:40]), r)
                 for k in n.keywords:
                     if k.arg == "out":
